@@ -39,16 +39,22 @@
       `projV p r`, pending answers stay related; hypotheses: the answer is well-formed for `p` and an appending answer
       comes from the leader of `p`), and the assembly `proj_step_partial`: EVERY CHOICE BUT `deliver`, from related
       states, is no step or one step of `Model.Pipeline` between related states.
-  MISSING for `ProjSim`:
-    * `deliver` (`proj_deliver`): the answer step of the worker with several partitions in the set (the two passes of
-      handleSuccess, request-level errors, the re-check of a held message).  Visible set: the `deliver` step with
-      `projV p r`, same succ / errs / ret of `p`, offsets from the base of `p`.  Hidden set: no step unless the answer
-      is a connection error (then `closeW` or hand-over + failed request + delivery, as in the replay) or a message of
-      `p` is held (the overflow look-through).  This needs the projection of `BrokerProd.resp` on one partition, which
-      is not proved (only `Props.C02bp.step_fifo`, per-partition accounting of ids).
-    * the decidable side condition `projOK p cs` (the cases excluded above; the broker hypotheses of
-      `proj_broker_visible_p`; the projected run satisfies `splitOKs`) - NOT defined yet - and the induction along the
-      run (`ProjSim_partial`); `proj_step_partial` is the induction step for all choices but `deliver`.
+    * Props/C02multiZ.lean - THE RUN: `projOK M p sN cs` (decidable side condition, checked along the N-run: `brOK` for
+      every broker step - answer well-formed for `p`, an appending answer comes from the leader of `p`; `delOK` for every
+      deliver step - the set holds something of `p`, or the answer is not a connection error and no message of `p` is
+      held), `DeliverProj M p` (a named OPEN Prop: the projection of the `deliver` step under `delOK`),
+      `ProjSim_partial` (PROVED from `DeliverProj`: `projOK` + `runN M {} cs = some sN` give a run of `Model.Pipeline`
+      with the log, successes and errors of `p`; invariant `WRel (BRp p)`, induction step `proj_step_partial`), and
+      `log_order_every_partition_partial` (LogOrder for `p`, provided the exhibited one-partition run satisfies
+      `splitOKs`).  `projOK` holds for `exTwo` and both of its partitions (by `decide`).
+  EXACTLY ONE single-step statement is open: `DeliverProj` (Props/C02multiZ.lean).  It needs the projection of
+  `BrokerProd.resp` on one partition with several partitions in the set (the two passes of handleSuccess - for which
+  Props/C02bp.lean has per-partition lemmas: `outData_loop1`, `bounces_loop1`, `loop2_part`, `handle_needs` -, the
+  request-level error for a visible set, the re-check of a held message): visible set => the `deliver` step with
+  `projV p r`, same succ / errs / ret of `p`, offsets from the base of `p`; hidden set => no step.
+  Also not established: that the one-partition run exhibited by `ProjSim_partial` satisfies `splitOKs` (it is a
+  hypothesis of `log_order_every_partition_partial`; it depends on the hidden/visible history, which the N-state alone
+  does not determine), and the full `ProjSim` (no side condition).
 -/
 import SaramaVerif.Model.PipelineN
 import SaramaVerif.Props.C02split
